@@ -192,6 +192,43 @@ def run(model, sc, entry='main', max_paths=8):
             out.append((root, list(dirs), list(files)))
         return out
 
+    def listing(path):
+        """(sub-directory names, file names, names of sub-directories reached through a symbolic link) of a directory of the scenario, or None."""
+        for top, levels in sc.dirs.items():
+            for (root, dirs, files, _via) in levels:
+                if root == path:
+                    linked = {d for d in dirs for (r2, _d, _f, via2) in levels if via2 and r2 == os.path.join(root, d)}
+                    return list(dirs), list(files), linked
+        return None
+
+    def h_scandir(I, e, args, kw, env):
+        path = args[0] if args else '.'
+        trace.append(('scandir', path))
+        if path in sc.walk_errors:
+            trace.append(('walk-error', path, True))
+            raise _Raise('PermissionError')
+        ls = listing(path)
+        if ls is None:
+            raise _Raise('NotADirectoryError' if path in sc.files else 'FileNotFoundError')
+        dirs, files, linked = ls
+        return [Obj('DirEntry', name=n, path=os.path.join(path, n), _dir=True, _link=n in linked) for n in dirs] + \
+            [Obj('DirEntry', name=n, path=os.path.join(path, n), _dir=False, _link=False) for n in files]
+
+    def h_listdir(I, e, args, kw, env):
+        return [en.attrs['name'] for en in h_scandir(I, e, args, kw, env)]
+
+    def entry_method(which):
+        def h(I, e, args, kw, env):
+            en = I.last_recv
+            if not (isinstance(en, Obj) and en.cls == 'DirEntry'):
+                return NotImplemented
+            follow = kw.get('follow_symlinks', args[0] if args else True)
+            if which == 'is_symlink':
+                return en.attrs['_link']
+            is_dir = en.attrs['_dir'] and (bool(follow) or not en.attrs['_link'])
+            return is_dir if which == 'is_dir' else (not en.attrs['_dir'])
+        return h
+
     def h_join(I, e, args, kw, env):
         if any(a is TOP or isinstance(a, Obj) for a in args):
             return TOP
@@ -214,6 +251,9 @@ def run(model, sc, entry='main', max_paths=8):
 
     def h_read(I, e, args, kw, env):
         f = I.last_recv
+        if isinstance(f, Obj) and f.cls == 'Stream' and f.attrs['name'] == 'stdin':
+            trace.append(('read-stdin',))
+            return sc.stdin
         if not (isinstance(f, Obj) and f.cls == 'File'):
             return NotImplemented
         trace.append(('read', f.attrs['path'], f.attrs['mode']))
@@ -224,6 +264,11 @@ def run(model, sc, entry='main', max_paths=8):
 
     def h_write(I, e, args, kw, env):
         f = I.last_recv
+        if isinstance(f, Obj) and f.cls == 'Stream':
+            # a standard stream reached through a variable (stream = sys.stdout.buffer; stream.write(data))
+            kind = {('stdout', True): 'stdout-bytes', ('stdout', False): 'stdout-text', ('stderr', False): 'stderr', ('stderr', True): 'stderr'}[(f.attrs['name'], f.attrs['binary'])]
+            trace.append((kind, args[0] if args else None))
+            return None
         if not (isinstance(f, Obj) and f.cls == 'File'):
             return NotImplemented
         trace.append(('write', f.attrs['path'], f.attrs['mode'], args[0] if args else None))
@@ -270,7 +315,13 @@ def run(model, sc, entry='main', max_paths=8):
         'sys.stdout.buffer.write': h_stdout_bytes, 'sys.stdout.write': h_stdout_text, 'sys.stderr.write': h_stderr, 'print': h_stdout_text,
         'os.path.isdir': h_isdir, 'os.path.isfile': h_isfile, 'os.path.exists': h_exists, 'os.walk': h_walk, 'os.path.join': h_join,
         'os.environ.get': h_environ_get, 'os.getenv': h_environ_get,
+        'os.scandir': h_scandir, 'os.listdir': h_listdir, '.is_dir': entry_method('is_dir'), '.is_file': entry_method('is_file'), '.is_symlink': entry_method('is_symlink'),
+        'os.path.islink': lambda I, e, args, kw, env: False,
+        'metadata.version': lambda I, e, args, kw, env: '0.0.0', 'importlib.metadata.version': lambda I, e, args, kw, env: '0.0.0',
         'open': h_open, 'io.open': h_open, '.read': h_read, '.write': h_write,
+        'value:sys.stdout': Obj('Stream', name='stdout', binary=False), 'value:sys.stdout.buffer': Obj('Stream', name='stdout', binary=True),
+        'value:sys.stderr': Obj('Stream', name='stderr', binary=False), 'value:sys.stderr.buffer': Obj('Stream', name='stderr', binary=True),
+        'value:sys.stdin': Obj('Stream', name='stdin', binary=False), 'value:sys.stdin.buffer': Obj('Stream', name='stdin', binary=True),
         'minify': h_minify, 'python_minifier.minify': h_minify,
     }
     I = Interp(model, MAIN, hooks)
